@@ -8,9 +8,9 @@ The chain is the `Chain` interface as the two functions use it:
   `inMain   id`  = `InMainChain(hash)`          = the header is known and the main-chain
                                                   entry at the header's height is this block
 Block hashes are abstract ids (`Nat`), heights are `uint64` values kept as `Nat < 2^64`;
-the one arithmetic expression of the loop, `index += skip + 1`, is evaluated modulo 2^64
+the one arithmetic expression of the loop, `next := index + skip + 1`, is evaluated modulo 2^64
 exactly as Go evaluates it.  The model mirrors the code AS IT IS (first main-chain locator
-entry wins; no guard against wrap-around of `index`).
+entry wins; the loop stops at the stop header when `next` wrapped around — fix 78882ab0).
 -/
 namespace BytomModel.Model.Sync
 
@@ -34,7 +34,7 @@ def inMain (c : Chain) (id : Nat) : Bool :=
 
 def two64 : Nat := 18446744073709551616
 
-/-- Go `index += skip + 1` on `uint64` -/
+/-- Go `index + skip + 1` on `uint64` -/
 def advance (index skip : Nat) : Nat := (index + skip + 1) % two64
 
 /-- result of one call: Go `(headers, nil)` or `(_, err)` -/
@@ -52,16 +52,18 @@ def findStart (c : Chain) : List Nat → Option Header
     | none => findStart c rest
 
 /-- the `for num, index := 0, start.Height; num < maxNum-1; num++` loop; `fuel` is the
-    number of iterations left.  `none` = `GetHeaderByHeight` failed (the call returns the error). -/
+    number of iterations left.  `next := index + skip + 1` in `uint64`; the loop ends with the
+    stop header when `next <= index` (the addition wrapped around) or `next >= stop.Height`.
+    `none` = `GetHeaderByHeight` failed (the call returns the error). -/
 def loop (c : Chain) (stop : Header) (skip : Nat) : (fuel : Nat) → (index : Nat) → Option (List Header)
   | 0, _ => some []
   | fuel + 1, index =>
-    let index' := advance index skip
-    if index' ≥ stop.height then some [stop]
-    else match c.byHeight index' with
+    let next := advance index skip
+    if next ≤ index ∨ next ≥ stop.height then some [stop]
+    else match c.byHeight next with
       | none => none
       | some h =>
-        match loop c stop skip fuel index' with
+        match loop c stop skip fuel next with
         | none => none
         | some rest => some (h :: rest)
 
@@ -134,10 +136,10 @@ def locateHeadersSig : String := "func(locator []*bc.Hash, stopHash *bc.Hash, sk
 def loopInit : String := "num, index := uint64(0), startHeader.Height"
 def loopCond : String := "num < maxNum-1"
 def loopPost : String := "num++"
-def loopUpdate : String := "index += skip + 1"
-def loopStopTest : String := "index >= stopHeader.Height"
-def locateHeadersIfs : List String := ["err != nil", "err == nil && bk.chain.InMainChain(header.Hash())", "err != nil", "!bk.chain.InMainChain(*stopHash) || stopHeader.Height < startHeader.Height", "stopHeader.Height == startHeader.Height", "index >= stopHeader.Height", "err != nil"]
-def locateHeadersSha : String := "6495edfb5ca0bb751c8389dc4023d00c77e1ba38348885b7f5629385396fb1ce"
+def loopUpdate : String := "next := index + skip + 1"
+def loopStopTest : String := "next <= index || next >= stopHeader.Height"
+def locateHeadersIfs : List String := ["err != nil", "err == nil && bk.chain.InMainChain(header.Hash())", "err != nil", "!bk.chain.InMainChain(*stopHash) || stopHeader.Height < startHeader.Height", "stopHeader.Height == startHeader.Height", "next <= index || next >= stopHeader.Height", "err != nil"]
+def locateHeadersSha : String := "972fd4fa134a52ab51a33833266e46a52cc4ae171749ebb867c5404326051935"
 def locateBlocksCall : String := "bk.locateHeaders(locator, stopHash, 0, maxNumOfBlocksPerMsg)"
 def locateBlocksSha : String := "417bc4f15d04b0c535b620d4cebe3930eb0396b6e5d27af5bb37e55e97b62519"
 def handlerCalls : List String := ["m.blockKeeper.locateBlocks(msg.GetBlockLocator(), msg.GetStopHash(), isTimeout)", "m.blockKeeper.locateHeaders(msg.GetBlockLocator(), msg.GetStopHash(), msg.GetSkip(), maxNumOfHeadersPerMsg)"]
